@@ -2030,11 +2030,64 @@ func translateBodies(pkgs []*packages.Package, byPath map[string]*packages.Packa
 		out = append(out, BodyFact{Name: r.Name, Applies: condOfStmt(a), Body: b})
 	}
 	sort.Slice(out, func(i, j int) bool { return out[i].Name < out[j].Name })
+	// the exported predicates of package util on a certificate (func X(c *x509.Certificate) bool), each translated on its
+	// own: the framework's scope gate and many lints are written in terms of them
+	type utilPred struct {
+		Name string      `json:"name"`
+		Cond interface{} `json:"cond"`
+	}
+	var ups []utilPred
+	upReasons := map[string]string{}
+	if up := byPath[modPath+"/util"]; up != nil {
+		for _, f := range up.Syntax {
+			for _, d := range f.Decls {
+				fd, ok := d.(*ast.FuncDecl)
+				if !ok || fd.Recv != nil || fd.Body == nil || !fd.Name.IsExported() || fd.Type.Results == nil || len(fd.Type.Results.List) != 1 {
+					continue
+				}
+				if len(fd.Type.Params.List) != 1 || len(fd.Type.Params.List[0].Names) != 1 {
+					continue
+				}
+				if ty := up.TypesInfo.TypeOf(fd.Type.Params.List[0].Type); ty == nil || ty.String() != certType {
+					continue
+				}
+				if rt := up.TypesInfo.TypeOf(fd.Type.Results.List[0].Type); !isBoolType(rt) {
+					continue
+				}
+				saveFields := map[string]string{}
+				for k, v := range bodyFields {
+					saveFields[k] = v
+				}
+				func() {
+					defer func() {
+						if rec := recover(); rec != nil {
+							if te, ok := rec.(*trErr); ok {
+								bodyFields = saveFields
+								upReasons[fd.Name.Name] = te.Error()
+								return
+							}
+							panic(rec)
+						}
+					}()
+					t := &trans{p: up, env: map[types.Object]val{}, byPath: byPath, poison: map[types.Object]bool{}}
+					t.env[up.TypesInfo.Defs[fd.Type.Params.List[0].Names[0]]] = val{kind: "path", path: ""}
+					c := condOfStmt(t.stmts(fd.Body.List, true))
+					ups = append(ups, utilPred{fd.Name.Name, c})
+				}()
+			}
+		}
+	}
+	sort.Slice(ups, func(i, j int) bool { return ups[i].Name < ups[j].Name })
+	facts.Tables["util_preds"] = ups
+	facts.Tables["util_preds_untranslated"] = upReasons
 	// keep only fields that translated lints use
 	used := map[string]bool{}
 	for _, b := range out {
 		collectFields(b.Applies, used)
 		collectFields(b.Body, used)
+	}
+	for _, u := range ups {
+		collectFields(u.Cond, used)
 	}
 	fields := map[string]string{}
 	for k := range used {
